@@ -36,34 +36,38 @@ Definition emarked (svcs : list cidr) (e : ccset) : Prop :=
 
 (* e' is e with pools that kept their geometry and lost no used block; same ghost flag *)
 Definition sgrows (e e' : ccset) : Prop :=
-  cc_start e' = cc_start e /\
+  (cc_start e' = cc_start e /\ cc_name e' = cc_name e /\ (cc_term e = true -> cc_term e' = true)) /\
   forall f p', pool_of e' f = Some p' -> exists p, pool_of e f = Some p /\ pg p' = pg p /\ forall c, In c (used p) -> In c (used p').
 
 Lemma sgrows_refl e : sgrows e e.
-Proof. split; [reflexivity|]. intros f p H. exists p. split; [exact H|split; [reflexivity|auto]]. Qed.
+Proof. split; [split; [reflexivity|split; [reflexivity|auto]]|]. intros f p H. exists p. split; [exact H|split; [reflexivity|auto]]. Qed.
 Lemma sgrows_trans a b c : sgrows a b -> sgrows b c -> sgrows a c.
 Proof.
-  intros [A1 A2] [B1 B2]. split; [congruence|]. intros f p' H. destruct (B2 f p' H) as (p1 & H1 & G1 & U1).
+  intros [(A1 & A1' & A1'') A2] [(B1 & B1' & B1'') B2]. split; [split; [congruence|split; [congruence|auto]]|]. intros f p' H. destruct (B2 f p' H) as (p1 & H1 & G1 & U1).
   destruct (A2 f p1 H1) as (p0 & H0 & G0 & U0). exists p0. split; [exact H0|split; [congruence|auto]].
 Qed.
 Lemma sgrows_marked svcs e e' : sgrows e e' -> (cc_start e = true -> emarked svcs e) -> cc_start e' = true -> emarked svcs e'.
 Proof.
-  intros [Hs Hp] Hm Hst svc Hsvc p' Hp'. destruct (Hp _ _ Hp') as (p & Hpe & Hg & Hu). rewrite Hs in Hst.
+  intros [[Hs _] Hp] Hm Hst svc Hsvc p' Hp'. destruct (Hp _ _ Hp') as (p & Hpe & Hg & Hu). rewrite Hs in Hst.
   intros i Hi Ho. rewrite Hg in *. apply Hu. exact (Hm Hst svc Hsvc p Hpe i Hi Ho).
 Qed.
 Lemma sgrows_with_assoc e a : sgrows e (with_assoc e a).
-Proof. split; [reflexivity|]. intros f p H. exists p. split; [destruct f; exact H|split; [reflexivity|auto]]. Qed.
+Proof. split; [split; [reflexivity|split; [reflexivity|auto]]|]. intros f p H. exists p. split; [destruct f; exact H|split; [reflexivity|auto]]. Qed.
 Lemma sgrows_add_assoc n e : sgrows e (add_assoc n e).
 Proof. apply sgrows_with_assoc. Qed.
 Lemma sgrows_del_assoc n e : sgrows e (del_assoc n e).
 Proof. apply sgrows_with_assoc. Qed.
-Lemma sgrows_with_term e t : sgrows e (with_term e t).
-Proof. split; [reflexivity|]. intros f p H. exists p. split; [destruct f; exact H|split; [reflexivity|auto]]. Qed.
+Lemma sgrows_with_term e : sgrows e (with_term e true).
+Proof. split; [split; [reflexivity|split; [reflexivity|auto]]|]. intros f p H. exists p. split; [destruct f; exact H|split; [reflexivity|auto]]. Qed.
 Lemma with_pool_start e f p : cc_start (with_pool e f p) = cc_start e.
+Proof. destruct f; reflexivity. Qed.
+Lemma with_pool_name e f p : cc_name (with_pool e f p) = cc_name e.
+Proof. destruct f; reflexivity. Qed.
+Lemma with_pool_term e f p : cc_term (with_pool e f p) = cc_term e.
 Proof. destruct f; reflexivity. Qed.
 Lemma sgrows_with_pool e f p p' : pool_of e f = Some p -> pg p' = pg p -> (forall c, In c (used p) -> In c (used p')) -> sgrows e (with_pool e f p').
 Proof.
-  intros Hp Hg Hu. split; [apply with_pool_start|]. intros f0 q Hq. destruct (fam_eq_dec f f0) as [<-|Hne].
+  intros Hp Hg Hu. split; [split; [apply with_pool_start|split; [apply with_pool_name|rewrite with_pool_term; auto]]|]. intros f0 q Hq. destruct (fam_eq_dec f f0) as [<-|Hne].
   - rewrite pool_of_with_pool_same in Hq. inversion Hq; subst q. exists p. split; [exact Hp|split; assumption].
   - rewrite pool_of_with_pool_other in Hq by exact Hne. exists q. split; [exact Hq|split; [reflexivity|auto]].
 Qed.
@@ -123,13 +127,13 @@ Definition clear_of (svcs : list cidr) (e : ccset) (x : cidr) : Prop :=
     forall i, i < maxc (pg p) -> overlap (block (pg p) i) x -> ~ overlap (block (pg p) i) svc.
 
 Lemma cc_release_marked svcs e x e' : EntryInv e -> wf_cidr x -> cc_release e x = Ok e' -> clear_of svcs e x -> emarked svcs e ->
-  emarked svcs e' /\ cc_start e' = cc_start e /\ forall f p', pool_of e' f = Some p' -> exists p, pool_of e f = Some p /\ pg p' = pg p.
+  emarked svcs e' /\ (cc_start e' = cc_start e /\ cc_name e' = cc_name e /\ (cc_term e = true -> cc_term e' = true)) /\ forall f p', pool_of e' f = Some p' -> exists p, pool_of e f = Some p /\ pg p' = pg p.
 Proof.
   intros E Hw H Hcl Hm. unfold cc_release in H. destruct (pool_of e (cf x)) as [p|] eqn:Ep; [|discriminate].
   destruct (release p x) as [p'|] eqn:Er; [|discriminate]. inversion H; subst e'.
   destruct (pool_of_PI e (cf x) p E Ep) as (I & _ & Hc).
   pose proof (release_spec p x I Hc Hw) as S. rewrite Er in S. destruct S as (_ & _ & _ & Hg & _).
-  split; [|split; [apply with_pool_start|]].
+  split; [|split; [split; [apply with_pool_start|split; [apply with_pool_name|rewrite with_pool_term; auto]]|]].
   - intros svc Hsvc q Hq. destruct (fam_eq_dec (cf x) (cf svc)) as [Ef|Hne].
     + rewrite <- Ef in Hq. rewrite pool_of_with_pool_same in Hq. inversion Hq; subst q.
       eapply pm_release; [exact I|exact Hc|exact Hw|exact Er| |].
@@ -153,7 +157,7 @@ Lemma rcov_trans a b c : rcov a b -> rcov b c -> rcov a c.
 Proof.
   intros H1 H2 e He. destruct (H2 e He) as [Hf|(e1 & He1 & G1)]; [left; exact Hf|].
   destruct (H1 e1 He1) as [Hf|(e0 & He0 & G0)].
-  - left. destruct G1 as [Hs _]. congruence.
+  - left. destruct G1 as [[Hs _] _]. congruence.
   - right. exists e0. split; [exact He0|eapply sgrows_trans; eassumption].
 Qed.
 Lemma rcov_sinv svcs m m' : rcov m m' -> SInv svcs m -> SInv svcs m'.
@@ -254,7 +258,7 @@ Proof.
   split; [eapply rcov_sinv; [eapply rcov_set_entry; [exact Eg1|exact G2]|exact S1]|].
   (* the block is clear of the service ranges *)
   intros e He Hst. rewrite (get_set_entry_same _ p c1 c2 Eg1) in He. inversion He; subst e.
-  assert (Hstc : cc_start c = true) by (destruct G1 as [A _]; destruct G2 as [B _]; congruence).
+  assert (Hstc : cc_start c = true) by (destruct G1 as [[A _] _]; destruct G2 as [[B _] _]; congruence).
   pose proof (S c (get_entry_in _ _ _ Eg) Hstc) as Hmk.
   assert (Hav : forall svc, In svc svcs -> ~ overlap blk svc).
   { intros svc Hsvc Ho. destruct (fam_eq_dec (cf svc) f) as [Ef|Hne].
@@ -285,12 +289,12 @@ Qed.
 
 (* ---------- the entry at a path keeps its geometry and its ghost flag ---------- *)
 Definition sgeo (e e' : ccset) : Prop :=
-  cc_start e' = cc_start e /\ forall f q', pool_of e' f = Some q' -> exists q, pool_of e f = Some q /\ pg q' = pg q.
+  (cc_start e' = cc_start e /\ cc_name e' = cc_name e /\ (cc_term e = true -> cc_term e' = true)) /\ forall f q', pool_of e' f = Some q' -> exists q, pool_of e f = Some q /\ pg q' = pg q.
 Lemma sgeo_refl e : sgeo e e.
-Proof. split; [reflexivity|]. intros f q H. exists q. split; [exact H|reflexivity]. Qed.
+Proof. split; [split; [reflexivity|split; [reflexivity|auto]]|]. intros f q H. exists q. split; [exact H|reflexivity]. Qed.
 Lemma sgeo_trans a b c : sgeo a b -> sgeo b c -> sgeo a c.
 Proof.
-  intros [A1 A2] [B1 B2]. split; [congruence|]. intros f q H. destruct (B2 f q H) as (q1 & H1 & G1).
+  intros [(A1 & A1' & A1'') A2] [(B1 & B1' & B1'') B2]. split; [split; [congruence|split; [congruence|auto]]|]. intros f q H. destruct (B2 f q H) as (q1 & H1 & G1).
   destruct (A2 f q1 H1) as (q0 & H0 & G0). exists q0. split; [exact H0|congruence].
 Qed.
 Lemma sgrows_sgeo e e' : sgrows e e' -> sgeo e e'.
@@ -347,7 +351,29 @@ Qed.
 Lemma safe_at_stab svcs m m' p x : stabm m m' -> safe_at svcs m p x -> safe_at svcs m' p x.
 Proof.
   intros St H e' He' Hst. destruct (St p e' He') as (e & He & G). destruct G as [Gs Gp].
-  destruct (H e He ltac:(congruence)) as [Hc Ha]. split; [|exact Ha]. eapply clear_of_sgeo; [split; [exact Gs|exact Gp]|exact Hc].
+  destruct (H e He ltac:(destruct Gs; congruence)) as [Hc Ha]. split; [|exact Ha]. eapply clear_of_sgeo; [split; [exact Gs|exact Gp]|exact Hc].
+Qed.
+
+Lemma occupy_try_stab node ps : forall m m' r, MapInv m -> wf_node node -> occupy_try m node ps = (m', r) -> stabm m m'.
+Proof.
+  induction ps as [|p ps IH]; intros m m' r M Hw H; cbn in H; [inversion H; subst; apply stabm_refl|].
+  destruct (get_entry m p) as [c|] eqn:Eg; [|inversion H; subst; apply stabm_refl].
+  destruct (negb (can_occupy_all c (n_cidrs node))); [eapply IH; eassumption|].
+  destruct (occupy_list c (n_cidrs node)) as [c' o] eqn:Eo.
+  pose proof (get_entry_inv _ _ _ M Eg) as Ec.
+  pose proof (occupy_list_inv _ _ _ _ Ec Hw Eo) as I'.
+  pose proof (occupy_list_sgrows _ _ _ _ Ec Hw Eo) as G.
+  destruct o.
+  - inversion H; subst. eapply stabm_set_entry; [exact Eg|]. apply sgrows_sgeo. eapply sgrows_trans; [exact G|apply sgrows_add_assoc].
+  - eapply stabm_trans; [eapply stabm_set_entry; [exact Eg|apply sgrows_sgeo; exact G]|].
+    eapply IH; [apply set_entry_inv; [exact M|exact I']|exact Hw|exact H].
+  - inversion H; subst. eapply stabm_set_entry; [exact Eg|apply sgrows_sgeo; exact G].
+Qed.
+Lemma occupy_cidrs_stab po lab m node m' r : MapInv m -> wf_node node -> occupy_cidrs po lab m node = (m', r) -> stabm m m'.
+Proof.
+  unfold occupy_cidrs. intros M Hw H. destruct (n_cidrs node) as [|pc0 pcs]; [inversion H; subst; apply stabm_refl|].
+  destruct (ordered_matching po lab m (n_labels node) false) as [[|p1 ps]|e|]; try (inversion H; subst; apply stabm_refl).
+  eapply occupy_try_stab; eassumption.
 Qed.
 
 Definition alloc_stab (m0 : cidrmap) (st : alloc_state) : Prop :=
@@ -422,11 +448,11 @@ Proof.
       unfold cc_release in E1. destruct (pool_of c (cf x)) as [q|] eqn:Eq; [|discriminate]. destruct (release q x) as [q'|] eqn:Erl; [|discriminate].
       inversion E1; subst c1. destruct (pool_of_PI c (cf x) q Ec Eq) as (I & _ & Hc).
       pose proof (release_spec q x I Hc Hw1) as Sp. rewrite Erl in Sp. destruct Sp as (_ & _ & _ & Hg & _).
-      split; [apply with_pool_start|]. intros f q2 Hq2. destruct (fam_eq_dec (cf x) f) as [<-|Hne].
+      split; [split; [apply with_pool_start|split; [apply with_pool_name|rewrite with_pool_term; auto]]|]. intros f q2 Hq2. destruct (fam_eq_dec (cf x) f) as [<-|Hne].
       - rewrite pool_of_with_pool_same in Hq2. inversion Hq2; subst q2. exists q. split; [exact Eq|exact Hg].
       - rewrite pool_of_with_pool_other in Hq2 by exact Hne. exists q2. split; [exact Hq2|reflexivity]. }
     split; [apply sinv_set_entry; [exact S|]|eapply stabm_set_entry; eassumption].
-    intros Hst'. destruct G as [Gs _]. rewrite Gs in Hst'. contradiction.
+    intros Hst'. destruct G as [[Gs _] _]. rewrite Gs in Hst'. contradiction.
 Qed.
 
 (* ---------- prioritizedCIDRs ---------- *)
@@ -511,7 +537,7 @@ Proof.
   intros Ec Hw E1. unfold cc_release in E1. destruct (pool_of c (cf x)) as [q|] eqn:Eq; [|discriminate]. destruct (release q x) as [q'|] eqn:Erl; [|discriminate].
   inversion E1; subst c'. destruct (pool_of_PI c (cf x) q Ec Eq) as (I & _ & Hc).
   pose proof (release_spec q x I Hc Hw) as Sp. rewrite Erl in Sp. destruct Sp as (_ & _ & _ & Hg & _).
-  split; [apply with_pool_start|]. intros f q2 Hq2. destruct (fam_eq_dec (cf x) f) as [<-|Hne].
+  split; [split; [apply with_pool_start|split; [apply with_pool_name|rewrite with_pool_term; auto]]|]. intros f q2 Hq2. destruct (fam_eq_dec (cf x) f) as [<-|Hne].
   - rewrite pool_of_with_pool_same in Hq2. inversion Hq2; subst q2. exists q. split; [exact Eq|exact Hg].
   - rewrite pool_of_with_pool_other in Hq2 by exact Hne. exists q2. split; [exact Hq2|reflexivity].
 Qed.
@@ -551,7 +577,7 @@ Proof.
   assert (Hc' : cc_start c' = true -> emarked svcs c' ).
   { intros Hst. destruct (bool_dec (cc_start c) true) as [Hsc|Hsc].
     - exact (proj1 (release_pcidrs_marked svcs _ Hs _ _ _ Ec Hw Erp (S0 c (get_entry_in _ _ _ Eg) Hsc))).
-    - exfalso. destruct Hgeo as [Gs _]. congruence. }
+    - exfalso. destruct Hgeo as [[Gs _] _]. congruence. }
   destruct rr as [[]|e|].
   - destruct (IH (set_entry m0 p (del_assoc (n_name node) c')) m2 r2) as [A B].
     + apply set_entry_inv; [exact M0|]. apply del_assoc_inv. exact Ec'.
@@ -605,18 +631,18 @@ Definition patch_source (svcs : list cidr) (m m' : cidrmap) (r : res unit) (nm :
 Theorem sync_node_svc po lab svcs canp apisame held m cached reread outs m' r fx :
   MapInv m -> SInv svcs m -> Forall wf_cidr svcs -> (forall n, cached = Some n -> wf_node n) ->
   sync_node po lab svcs canp apisame held m cached reread outs = (m', r, fx) ->
-  SInv svcs m' /\ forall nm cs o, In (FxPatch nm cs o) fx -> patch_source svcs m m' r nm cs.
+  SInv svcs m' /\ stabm m m' /\ forall nm cs o, In (FxPatch nm cs o) fx -> patch_source svcs m m' r nm cs.
 Proof.
-  intros M S Hs Hc H. unfold sync_node in H. destruct cached as [node|]; [|inversion H; subst; split; [exact S|intros nm cs o []]].
+  intros M S Hs Hc H. unfold sync_node in H. destruct cached as [node|]; [|inversion H; subst; split; [exact S|split; [apply stabm_refl|intros nm cs o []]]].
   specialize (Hc node eq_refl).
   destruct (n_deleting node).
   { destruct (release_cidr svcs m node) as [m1 r1] eqn:Er. inversion H; subst.
-    split; [exact (proj1 (release_cidr_svc svcs m node _ _ M S Hs Hc Er))|intros nm cs o []]. }
+    destruct (release_cidr_svc svcs m node _ _ M S Hs Hc Er) as [A B]. split; [exact A|split; [exact B|intros nm cs o []]]. }
   unfold allocate_or_occupy in H. destruct (n_cidrs node) as [|c0 cs0] eqn:En.
   2:{ destruct reread.
       - destruct (occupy_cidrs po lab m node) as [m1 r1] eqn:Eo. inversion H; subst.
-        split; [eapply rcov_sinv; [eapply occupy_cidrs_rcov; eassumption|exact S]|intros nm cs o []].
-      - inversion H; subst. split; [exact S|intros nm cs o []]. }
+        split; [eapply rcov_sinv; [eapply occupy_cidrs_rcov; eassumption|exact S]|split; [eapply occupy_cidrs_stab; eassumption|intros nm cs o []]].
+      - inversion H; subst. split; [exact S|split; [apply stabm_refl|intros nm cs o []]]. }
   destruct (prioritized_cidrs po lab held m node) as [m1 rp] eqn:Ep.
   assert (Hpt : SInv svcs m1 /\ stabm m m1 /\ MapInv m1 /\
                 match rp with Ok (cs, p) => safe_list svcs m1 p cs /\ keys_at m1 p cs /\ Forall wf_cidr cs | _ => True end).
@@ -631,19 +657,19 @@ Proof.
   destruct Hpt as (S1 & St1 & M1 & Hrp).
   destruct rp as [[cs p]|e|].
   - destruct Hrp as (Hsafe & Hkeys & Hwcs). destruct cs as [|c1 cs1].
-    + inversion H; subst. split; [exact S1|]. intros nm cs o [Ho|[]]. discriminate Ho.
-    + destruct (update_cidrs_allocation_svc svcs _ _ _ _ _ _ _ _ _ _ _ M1 S1 Hwcs Hsafe H) as [S' _].
-      split; [exact S'|]. intros nm cs o Hin.
+    + inversion H; subst. split; [exact S1|]. split; [exact St1|]. intros nm cs o [Ho|[]]. discriminate Ho.
+    + destruct (update_cidrs_allocation_svc svcs _ _ _ _ _ _ _ _ _ _ _ M1 S1 Hwcs Hsafe H) as [S' St'].
+      split; [exact S'|]. split; [eapply stabm_trans; eassumption|]. intros nm cs o Hin.
       destruct (update_patches_only_unassigned _ _ _ _ _ _ _ _ _ _ _ H _ Hin eq_refl) as [_ (o' & Ho')]. inversion Ho'; subst nm cs o'.
-      destruct Hkeys as (e1 & Hg1 & Hk1). destruct (St1 p e1 Hg1) as (e0 & Hg0 & [Gs Gp]).
+      destruct Hkeys as (e1 & Hg1 & Hk1). destruct (St1 p e1 Hg1) as (e0 & Hg0 & [[Gs Gn] Gp]).
       exists p, e0. split; [exact Hg0|]. split.
       * intros Hst x Hx svc Hsvc. exact (proj2 (Hsafe x Hx e1 Hg1 ltac:(congruence)) svc Hsvc).
       * intros Hr. subst r. destruct (update_ok_assoc _ _ _ _ _ _ _ _ _ _ H (ex_intro _ o Hin)) as (c & Hgc & Hm').
         rewrite Hg1 in Hgc. inversion Hgc; subst c. exists (add_assoc (n_name node) e1).
         split; [rewrite Hm'; eapply get_set_entry_same; exact Hg1|]. split; [cbn; exact Gs|]. split; [apply add_assoc_has|].
         intros x Hx. destruct (Hk1 x Hx) as (pl & Hp & Hu). exists pl. split; [destruct (cf x); exact Hp|exact Hu].
-  - inversion H; subst. split; [exact S1|]. intros nm cs o [Ho|[]]. discriminate Ho.
-  - inversion H; subst. split; [exact S1|intros nm cs o []].
+  - inversion H; subst. split; [exact S1|]. split; [exact St1|]. intros nm cs o [Ho|[]]. discriminate Ho.
+  - inversion H; subst. split; [exact S1|split; [exact St1|intros nm cs o []]].
 Qed.
 
 (* ---------- ClusterCIDR work items: entries are kept, marked terminating, removed, or new and not flagged ---------- *)
@@ -939,7 +965,7 @@ Section WorldSvc.
     destruct (sync_node po lab (svc_list (w_svc w)) (can_patch w key) (api_same w key) (held_cidrs (w_ncache w)) m cached (find_node key (w_ncache w)) outs)
       as [[m' r] fx] eqn:Es.
     inversion H; subst. cbn [ob_fx] in He.
-    destruct (sync_node_svc _ _ _ _ _ _ _ _ _ _ _ _ _ (wi_ctl w I m Em) (S m Em) (wi_svc w I) Hc Es) as [_ Hp].
+    destruct (sync_node_svc _ _ _ _ _ _ _ _ _ _ _ _ _ (wi_ctl w I m Em) (S m Em) (wi_svc w I) Hc Es) as (_ & _ & Hp).
     exists m, m', r. split; [exact Em|]. split; [|exact (Hp nm cs out He)].
     intros Hnp. rewrite (proj1 (apply_effects_cs fx _)). unfold after_call. destruct r; [reflexivity|reflexivity|contradiction].
   Qed.
